@@ -115,6 +115,9 @@ func eqStrs(a, b []string) bool {
 func rwCause(all []*rules.NetworkRule) string {
 	exc, structured := 0, false
 	for _, r := range all {
+		if r == nil {
+			continue
+		}
 		if r.Whitelist {
 			exc++
 			switch r.DNSRewrite.Value.(type) {
@@ -248,6 +251,10 @@ func cmdReplayRewrites(args []string) error {
 			exp := c.Exp
 			var allSyms []int
 			for _, r := range all {
+				if r == nil {
+					pv = "DNSRewritesAll returned a nil rule"
+					break
+				}
 				allSyms = append(allSyms, textSym[r.RuleText])
 			}
 			if pv == "" && seqKey(allSyms) != seqKey(c.S) {
@@ -334,12 +341,25 @@ func runRewriteEvent(entry string, texts []string) (ev rwEvent, cause string, er
 		objs = append(objs, r)
 	}
 	all, got, pv := dnsRewritesVia(entry, texts, objs)
-	if pv != "" {
-		return ev, "", fmt.Errorf("panic: %s", pv)
-	}
 	ev = rwEvent{All: []rwAbs{}, Got: []int{}, Entry: entry, List: nz(texts)}
+	if pv != "" {
+		// a crash, or a second DNSRewrites() call that answers differently, is not an allowed observation:
+		// log an event no specification can accept (position 0) instead of stopping the driver
+		for _, r := range objs {
+			ev.All = append(ev.All, rwAbs{Exc: r.Whitelist, Important: r.IsOptionEnabled(rules.OptionImportant), Val: projectRewrite(r)})
+		}
+		ev.Got = []int{0}
+		ev.Entry = entry + ": " + pv
+		return ev, "crash", nil
+	}
 	pos := map[*rules.NetworkRule]int{}
 	for i, r := range all {
+		if r == nil {
+			// a nil entry is not a rule: make the event unacceptable instead of crashing the driver
+			ev.All = append(ev.All, rwAbs{Val: rwVal{Rcode: "NIL-ENTRY"}})
+			ev.Got = append(ev.Got, 0)
+			continue
+		}
 		pos[r] = i + 1
 		v := projectRewrite(r)
 		if r.DNSRewrite.NewCNAME == "" && r.DNSRewrite.RCode == 0 && r.DNSRewrite.RRType == 0 && r.DNSRewrite.Value == nil {
@@ -348,6 +368,10 @@ func runRewriteEvent(entry string, texts []string) (ev rwEvent, cause string, er
 		ev.All = append(ev.All, rwAbs{Exc: r.Whitelist, Important: r.IsOptionEnabled(rules.OptionImportant), Val: v})
 	}
 	for _, r := range got {
+		if r == nil {
+			ev.Got = append(ev.Got, 0)
+			continue
+		}
 		p, ok := pos[r]
 		if !ok {
 			return ev, "", fmt.Errorf("DNSRewrites returned a rule that DNSRewritesAll did not: %s", r.RuleText)
